@@ -108,8 +108,12 @@ where
                     // graceful bail-out we flush both as-is and let the caller continue the
                     // response from where they were.
                     let err = RewritingError::MemoryLimitExceeded(e);
+                    #[cfg(feature = "_verif_hooks")]
+                    crate::verif::emit(crate::verif::Event::FailAppend);
 
                     if self.should_bail_out_for(&err) {
+                        #[cfg(feature = "_verif_hooks")]
+                        crate::verif::emit(crate::verif::Event::GracefulBailOut);
                         let dispatcher = self.parser.get_dispatcher();
                         dispatcher.run_bail_out_handlers(&err);
                         dispatcher.flush_for_bail_out(self.buffer.bytes());
@@ -133,7 +137,11 @@ where
                 // errors happen before `lexeme_consumed()`; content handler errors happen
                 // between `emit_chunk_before_lexeme()` and `consume_lexeme()`). Flushing from
                 // there preserves all bytes the caller fed us.
+                #[cfg(feature = "_verif_hooks")]
+                crate::verif::emit(crate::verif::Event::FailParse);
                 if self.should_bail_out_for(&e) {
+                    #[cfg(feature = "_verif_hooks")]
+                    crate::verif::emit(crate::verif::Event::GracefulBailOut);
                     let dispatcher = self.parser.get_dispatcher();
                     dispatcher.run_bail_out_handlers(&e);
                     dispatcher.flush_for_bail_out(chunk);
@@ -149,6 +157,8 @@ where
 
         if consumed_byte_count < chunk.len() {
             if self.has_buffered_data {
+                #[cfg(feature = "_verif_hooks")]
+                crate::verif::emit(crate::verif::Event::BufferShift(consumed_byte_count));
                 self.buffer.shift(consumed_byte_count);
             } else if let Some(unconsumed) = data.get(consumed_byte_count..) {
                 if let Err(e) = self.buffer.init_with(unconsumed) {
@@ -156,8 +166,12 @@ where
                     // call. On a graceful bail-out we flush the leftover raw so the response
                     // stays whole.
                     let err = RewritingError::MemoryLimitExceeded(e);
+                    #[cfg(feature = "_verif_hooks")]
+                    crate::verif::emit(crate::verif::Event::FailInitWith);
 
                     if self.should_bail_out_for(&err) {
+                        #[cfg(feature = "_verif_hooks")]
+                        crate::verif::emit(crate::verif::Event::GracefulBailOut);
                         let dispatcher = self.parser.get_dispatcher();
                         dispatcher.run_bail_out_handlers(&err);
                         dispatcher.flush_for_bail_out(unconsumed);
@@ -166,6 +180,8 @@ where
                     return Err(err);
                 }
 
+                #[cfg(feature = "_verif_hooks")]
+                crate::verif::emit(crate::verif::Event::BufferInit(unconsumed.len()));
                 self.has_buffered_data = true;
             } else {
                 debug_assert!(false);
@@ -191,7 +207,11 @@ where
         if let Err(e) = self.parser.parse(chunk, true) {
             // Same reasoning as in `write()`: if we can bail out gracefully, make sure the sink
             // has all the input bytes before propagating the error.
+            #[cfg(feature = "_verif_hooks")]
+            crate::verif::emit(crate::verif::Event::FailParseInEnd);
             if self.should_bail_out_for(&e) {
+                #[cfg(feature = "_verif_hooks")]
+                crate::verif::emit(crate::verif::Event::GracefulBailOut);
                 let dispatcher = self.parser.get_dispatcher();
                 dispatcher.run_bail_out_handlers(&e);
                 dispatcher.flush_for_bail_out(chunk);
